@@ -187,12 +187,26 @@ def reference_pairs(M, rec, rng, g, n_cases):
         if not neg:
             continue
         for opts in combos():
+            # spy on the engine's max(): an exact zero only counts as "clamped" if a max() ran in this step
+            calls = []
+            orig_max = NE.max
+
+            def spy_max(self_, a, b, _o=orig_max, _c=calls):
+                r_ = _o(self_, a, b)
+                _c.append(r_)
+                return r_
+
+            NE.max = spy_max
             try:
                 built.net.step(init_conditions=drive.np_init(built, vals, "vec1"), engine=NE(), **opts, **kw)
                 got = drive.read_next(built)
             except Exception as e:
                 rec.violation(f"{PROP}:numpy: step with options raised {type(e).__name__}", {"desc": desc, "opts": opts, "exception": repr(e)[:300]})
                 break
+            finally:
+                NE.max = orig_max
+            if not opts and calls:
+                rec.count("max_calls_with_all_options_off")
             rec.count("pairs_reference")
             bad = None
             for (eid, name, i), x in neg.items():
@@ -200,9 +214,11 @@ def reference_pairs(M, rec, rng, g, n_cases):
                 on = bool(opts.get(f"positive_next_{q_}"))
                 g_ = got[eid][name][i] if isinstance(got[eid][name], list) else got[eid][name]
                 rec.count("scalars_compared")
-                if on and g_ != 0.0:
+                # only the clamp itself is decided: a negative value although the option is on, or an
+                # exact zero although it is off (a different positive/negative value is C01's business)
+                if on and g_ < 0.0:
                     bad = (eid, name, i, g_, 0.0, f"{name}+ is not clamped at zero although positive_next_{q_} is on")
-                elif not on and not (g_ < 0.0):
+                elif not on and g_ == 0.0 and any(r_ is built.el(eid).next_states[name] for r_ in calls):
                     bad = (eid, name, i, g_, x, f"{name}+ is clamped at zero although its option is off")
                 if bad:
                     break
